@@ -86,18 +86,27 @@ func (self *Lexer) skipLineComment() {
 	self.advance()
 }
 
-func (self *Lexer) skipBlockComment() {
+func (self *Lexer) skipBlockComment() *errors.Error {
+	startLocation := self.location
 	self.advance()
 	self.advance()
 
 	for {
 		if self.currentChar == nil || self.nextChar == nil {
-			break
+			// the comment is never closed: it extends to the end of the input (no rune of it is a token)
+			for self.currentChar != nil {
+				self.advance()
+			}
+			return errors.NewError(errors.Span{
+				Start:    startLocation,
+				End:      self.location,
+				Filename: self.filename,
+			}, "Block comment never closed", errors.SyntaxError)
 		}
 		if *self.currentChar == '*' && *self.nextChar == '/' {
 			self.advance()
 			self.advance()
-			break
+			return nil
 		}
 
 		// skip any other character of this comment
@@ -170,7 +179,9 @@ outer:
 					self.skipLineComment()
 					continue outer
 				case '*':
-					self.skipBlockComment()
+					if err := self.skipBlockComment(); err != nil {
+						return UnknownToken(self.location), err
+					}
 					continue outer
 				}
 			}
